@@ -327,13 +327,27 @@ class JsonSchemaGenerator:
                 # will count options.ignore_required in
                 required.append(name)
             elif self.output:
-                if not field.no_default:
-                    # if field has default, the value is required in the output data
+                opts = options or self.options
+                if (
+                    (not field.no_default or not unprovided(opts.force_default))
+                    and not opts.no_default
+                    and not (field.defer_default or opts.defer_default)
+                ):
+                    # if field has a default that the parser applies (not deferred, not switched off by
+                    # no_default), the value is required in the output data
                     required.append(name)
 
         data.update(properties=properties)
         if required:
             data.update(required=required)
+        if self.output:
+            # dependencies are checked on the input; in the output only those that are output
+            # properties themselves can be promised (a no_output dependency is never there)
+            dependent_required = {
+                key: [dep for dep in deps if dep in properties]
+                for key, deps in dependent_required.items()
+            }
+            dependent_required = {key: deps for key, deps in dependent_required.items() if deps}
         if dependent_required:
             data.update(dependentRequired=dependent_required)
         addition = options.addition
